@@ -53,7 +53,7 @@ func (c *Confirmer) TryConfirm(block *types.Block) (types.SignData, bool) {
 		return types.SignData{}, false
 	}
 
-	if block.IsConfirmExist(sig) {
+	if block.IsConfirmExist(sig) || isSignedBySelf(block) {
 		return types.SignData{}, false
 	}
 
@@ -159,6 +159,23 @@ func (c *Confirmer) SetLastSig(block *types.Block) {
 	}
 }
 
+// isSignedBySelf tests if the block carries a signature of this node already, as its miner or as a confirm. The signatures are compared
+// by the node they recover to: a signature can be re-encoded to other bytes, and a copy of our own confirm in such a disguise must not
+// make us count ourselves twice
+func isSignedBySelf(block *types.Block) bool {
+	self := deputynode.GetSelfNodeID()
+	hash := block.Hash()
+	if minerNodeID, err := block.SignerNodeID(); err == nil && bytes.Compare(minerNodeID, self) == 0 {
+		return true
+	}
+	for _, sig := range block.Confirms {
+		if nodeID, err := sig.RecoverNodeID(hash); err == nil && bytes.Compare(nodeID, self) == 0 {
+			return true
+		}
+	}
+	return false
+}
+
 func IsMinedByself(block *types.Block) bool {
 	nodeID, err := block.SignerNodeID()
 	if err != nil {
@@ -183,7 +200,7 @@ func (c *Confirmer) tryConfirmStable(block *types.Block) *types.SignData {
 		return nil
 	}
 
-	if block.IsConfirmExist(sig) {
+	if block.IsConfirmExist(sig) || isSignedBySelf(block) {
 		return nil
 	}
 
